@@ -1,3 +1,148 @@
+/-
+  Driver.X01 — runs the X01 CodeModels (Golib.Ext.Keys, Golib.Ext.PathTree) on request lines.
+
+  key types  T = I2 | I3 | L2 | L3 | POID | PKOID | LINK      (PKIND is the POID code with another field name)
+  a key is written as its fields in struct order, decimal; LINK as <ip hex or -> <port>
+
+    H T <key>            Hash()                     → decimal uint
+    E T <key> <key>      Equals                     → 0 | 1
+    EN LINK <key>        Equals(nil)                → panic
+    C T <key> <key>      CompareTo                  → -1 | 0 | 1        (not LINK)
+    N LINK <key> <key>   Include                    → 0 | 1
+    B T <key>            ToBytes                    → hex               (I2 I3 L2 L3 LINK)
+    O T <hex>            ToObject                   → ok <key> <rest length> | fail
+    T <ops>              history on one PathTree; ops `;`-separated
+         i:<segs>:<val>   InsertArray      segs: `-` (empty slice) or comma separated segments each prefixed `s`
+         I:<str>:<val>    Insert           str: the path text, `~` for the empty string;  val: decimal or `nil`
+         f:<segs>  F:<str>  FindArray / Find
+         n  Size()        e  Paths().HasMoreElements()
+       answer `;`-separated:  nil | v<val> | n<k> | m0 | m1
+-/
+import Golib.Ext.Keys
+import Golib.Ext.PathTree
 import Driver.Common
-/-! Driver of the extension check X01 (placeholder until the model exists). -/
-def main : IO Unit := pure ()
+
+open Drv Ext.Keys
+
+def ints (ts : List String) : Option (List Int) := ts.mapM parseInt
+
+def showInts (xs : List Int) : String := " ".intercalate (xs.map toString)
+
+def parseLink : List String → Option LINK
+  | [ip, p] => do
+    let b ← ofHex ip
+    let q ← parseInt p
+    pure ⟨b, q⟩
+  | _ => none
+
+def b2s (b : Bool) : String := if b then "1" else "0"
+
+def answerO {α : Type} (p : P α) (sh : α → String) (hex : String) : String :=
+  match ofHex hex with
+  | none => "bad"
+  | some bs =>
+    match P.run p bs with
+    | some (k, r) => s!"ok {sh k} {r.length}"
+    | none => "fail"
+
+def keyLine (ts : List String) : String :=
+  match ts with
+  | "EN" :: "LINK" :: rest =>
+    match parseLink rest with
+    | some a => match LINK.equalsOpt a none with | none => "panic" | some b => b2s b
+    | none => "bad"
+  | "N" :: "LINK" :: a1 :: a2 :: b1 :: b2 :: [] =>
+    match parseLink [a1, a2], parseLink [b1, b2] with
+    | some a, some b => b2s (LINK.includes a b)
+    | _, _ => "bad"
+  | "H" :: "LINK" :: rest => match parseLink rest with | some a => toString (LINK.hash a) | none => "bad"
+  | "E" :: "LINK" :: a1 :: a2 :: b1 :: b2 :: [] =>
+    match parseLink [a1, a2], parseLink [b1, b2] with
+    | some a, some b => b2s (LINK.equals a b)
+    | _, _ => "bad"
+  | "B" :: "LINK" :: rest => match parseLink rest with | some a => hexOf (LINK.toBytes a) | none => "bad"
+  | "O" :: "LINK" :: [hex] => answerO LINK.toObject (fun k => s!"{hexOf k.ip} {k.port}") hex
+  | "O" :: "I2" :: [hex] => answerO I2.toObject (fun k => showInts [k.v1, k.v2]) hex
+  | "O" :: "I3" :: [hex] => answerO I3.toObject (fun k => showInts [k.v1, k.v2, k.v3]) hex
+  | "O" :: "L2" :: [hex] => answerO L2.toObject (fun k => showInts [k.v1, k.v2]) hex
+  | "O" :: "L3" :: [hex] => answerO L3.toObject (fun k => showInts [k.v1, k.v2, k.v3]) hex
+  | op :: ty :: rest =>
+    match ints rest with
+    | none => "bad"
+    | some xs =>
+      match op, ty, xs with
+      | "H", "I2", [a, b] => toString (I2.hash ⟨a, b⟩)
+      | "H", "I3", [a, b, c] => toString (I3.hash ⟨a, b, c⟩)
+      | "H", "L2", [a, b] => toString (L2.hash ⟨a, b⟩)
+      | "H", "L3", [a, b, c] => toString (L3.hash ⟨a, b, c⟩)
+      | "H", "POID", [a, b] => toString (POID.hash ⟨a, b⟩)
+      | "H", "PKOID", [a, b, c] => toString (PKOID.hash ⟨a, b, c⟩)
+      | "E", "I2", [a, b, c, d] => b2s (I2.equals ⟨a, b⟩ ⟨c, d⟩)
+      | "E", "I3", [a, b, c, d, e, f] => b2s (I3.equals ⟨a, b, c⟩ ⟨d, e, f⟩)
+      | "E", "L2", [a, b, c, d] => b2s (L2.equals ⟨a, b⟩ ⟨c, d⟩)
+      | "E", "L3", [a, b, c, d, e, f] => b2s (L3.equals ⟨a, b, c⟩ ⟨d, e, f⟩)
+      | "E", "POID", [a, b, c, d] => b2s (POID.equals ⟨a, b⟩ ⟨c, d⟩)
+      | "E", "PKOID", [a, b, c, d, e, f] => b2s (PKOID.equals ⟨a, b, c⟩ ⟨d, e, f⟩)
+      | "C", "I2", [a, b, c, d] => toString (I2.compareTo ⟨a, b⟩ ⟨c, d⟩)
+      | "C", "I3", [a, b, c, d, e, f] => toString (I3.compareTo ⟨a, b, c⟩ ⟨d, e, f⟩)
+      | "C", "L2", [a, b, c, d] => toString (L2.compareTo ⟨a, b⟩ ⟨c, d⟩)
+      | "C", "L3", [a, b, c, d, e, f] => toString (L3.compareTo ⟨a, b, c⟩ ⟨d, e, f⟩)
+      | "C", "POID", [a, b, c, d] => toString (POID.compareTo ⟨a, b⟩ ⟨c, d⟩)
+      | "C", "PKOID", [a, b, c, d, e, f] => toString (PKOID.compareTo ⟨a, b, c⟩ ⟨d, e, f⟩)
+      | "B", "I2", [a, b] => hexOf (I2.toBytes ⟨a, b⟩)
+      | "B", "I3", [a, b, c] => hexOf (I3.toBytes ⟨a, b, c⟩)
+      | "B", "L2", [a, b] => hexOf (L2.toBytes ⟨a, b⟩)
+      | "B", "L3", [a, b, c] => hexOf (L3.toBytes ⟨a, b, c⟩)
+      | _, _, _ => "bad"
+  | _ => "bad"
+
+/-! ### PathTree histories -/
+
+open Ext.PathTree in
+def parseSegs (s : String) : Option Path :=
+  if s == "-" then some []
+  else (s.splitOn ",").mapM (fun t => if t.startsWith "s" then some (String.ofList (t.toList.drop 1)) else none)
+
+def parseStr (s : String) : String := if s == "~" then "" else s
+
+def parseVal (s : String) : Option (Option Nat) :=
+  if s == "nil" then some none else (parseNat s).map some
+
+def showVal : Option Nat → String
+  | none => "nil"
+  | some v => s!"v{v}"
+
+open Ext.PathTree in
+def treeOp (t : PT Nat) (op : String) : PT Nat × String :=
+  match op.splitOn ":" with
+  | ["i", segs, v] =>
+    match parseSegs segs, parseVal v with
+    | some p, some v => let (t', o) := insertArray t p v; (t', showVal o)
+    | _, _ => (t, "bad")
+  | ["I", s, v] =>
+    match parseVal v with
+    | some v => let (t', o) := insert t (parseStr s) v; (t', showVal o)
+    | none => (t, "bad")
+  | ["f", segs] =>
+    match parseSegs segs with
+    | some p => (t, showVal (findArray t p))
+    | none => (t, "bad")
+  | ["F", s] => (t, showVal (find t (parseStr s)))
+  | ["n"] => (t, s!"n{size t}")
+  | ["e"] => (t, if (enumerOf t).hasMore then "m1" else "m0")
+  | _ => (t, "bad")
+
+open Ext.PathTree in
+def treeLine (ops : String) : String :=
+  let rec go (t : PT Nat) (ops : List String) (acc : List String) : List String :=
+    match ops with
+    | [] => acc.reverse
+    | op :: rest => let (t', o) := treeOp t op; go t' rest (o :: acc)
+  ";".intercalate (go {} (ops.splitOn ";") [])
+
+def answer (l : String) : String :=
+  match l.splitOn " " with
+  | ["T", ops] => treeLine ops
+  | ts => keyLine ts
+
+def main : IO Unit := Drv.statelessLoop answer
